@@ -48,6 +48,8 @@ func TestC07(t *testing.T) {
 			}
 			for _, to := range cresCodecs {
 				o := filepath.Join(dir, fmt.Sprintf("c07-%d-out.%s", si, to.name))
+				// the output path already holds a longer stream of an earlier run (a re-used file name)
+				os.WriteFile(o, cresEncode(to.name, append(append([]vegeta.Result(nil), p...), p...)), 0o644)
 				var err error
 				func() {
 					defer func() {
